@@ -61,6 +61,20 @@ def process_list(node: Node):
     return values, inner_trivia
 
 
+def _is_negative_number(expr: NixExpression) -> bool:
+    """Detect constructed negative literals, which need parentheses inside lists."""
+    from nix_manipulator.expressions.float import FloatExpression
+    from nix_manipulator.expressions.primitive import IntegerPrimitive
+
+    if expr.before or expr.after:
+        return False
+    if isinstance(expr, IntegerPrimitive):
+        return isinstance(expr.value, int) and expr.value < 0
+    if isinstance(expr, FloatExpression):
+        return expr.value.startswith("-")
+    return False
+
+
 @dataclass(slots=True, repr=False)
 class NixList(TypedExpression):
     """Nix list expression that preserves original multiline structure."""
@@ -133,10 +147,13 @@ class NixList(TypedExpression):
         """Generate a compact inline version for list call formatting."""
         if not self.value:
             return "[ ]"
-        items = [
-            coerce_expression(item).rebuild(indent=indent, inline=True)
-            for item in self.value
-        ]
+        items = []
+        for item in self.value:
+            expr = coerce_expression(item)
+            rendered = expr.rebuild(indent=indent, inline=True)
+            if _is_negative_number(expr):
+                rendered = f"({rendered})"
+            items.append(rendered)
         return f"[ {' '.join(items)} ]"
 
     def simple_inline_preview(
@@ -190,7 +207,13 @@ class NixList(TypedExpression):
         def render_item(item: NixExpression | str | int | bool | float | None) -> str:
             """Render list items consistently based on multiline decision."""
             expr = coerce_expression(item)
-            return expr.rebuild(indent=indented, inline=not multiline)
+            rendered = expr.rebuild(indent=indented, inline=not multiline)
+            if _is_negative_number(expr):
+                # `[ -1 ]` is a syntax error: list elements cannot be unary expressions.
+                stripped = rendered.lstrip(" ")
+                padding = rendered[: len(rendered) - len(stripped)]
+                return f"{padding}({stripped})"
+            return rendered
 
         items = [render_item(item) for item in self.value]
 
